@@ -74,3 +74,14 @@ claim('C19', 'other', 'contract-based deductive verification on the abstract hea
       'Proved for an arbitrary well-formed circuit: remove_gate succeeds exactly for an existing unused gate, removes it from gates/users/inputs/outputs, drops blocks naming it and keeps WF; replace_inputs (<=2 labels per list) retypes exactly the listed inputs to the constants, '
       'removes them from the input list, leaves every other gate, the users index, outputs and blocks untouched, keeps WF, with exact raise conditions. rename_gate, replace_subcircuit and the input order / cofactor statement are bounded-only.',
       T_ASSUME + 'proof rule R2 for the cofactor claim.', 'DESIGN.md §6 C19')
+
+for _k in ('C08', 'C16'):
+    NA.pop(_k, None)
+claim('C08', 'other', 'contract-based deductive verification on an abstract host circuit (as C07), including a model of the sorted work lists with all tie-breaking orders; bounded stand-in for every larger width',
+      'All seven multiplier entry points (default, alter, both Karatsuba forms, Dadda, Wallace, pow2_m1) and add_square are proved exact for operands of 1..2 bits (3 in thorough): product value, result length, fresh gates only, WF — for all operand values, all hosts and operand aliasing. '
+      'Everything wider, in particular the Karatsuba / squarer recursion, is bounded-only (exhaustive values up to 16 bits total, corner and random values at the recursion widths).',
+      T_ASSUME + 'operand labels are not the generators\' sentinel strings; uuid4 draws pairwise distinct.', 'DESIGN.md §6 C07/C08/C09')
+claim('C16', 'other', 'contract-based deductive verification of the bit-level primitives (single-step contracts over a byte-array model) and of the code tables; bounded stand-in for streams, records and circuits',
+      'Proved for all byte contents and positions: BitWriter.write appends exactly the given bit and keeps the writer invariant; BitReader.read returns the bit at the position, advances by one and raises BitIOError exactly at the end; '
+      'write_number accepts exactly 0 <= n < 2^k (k<=9) and emits the little-endian bits; gate-type codes are injective/inverse and _get_arity is the table the format defines. Round trips of numbers, dictionaries and circuits are bounded-only.',
+      T_ASSUME + 'background lemma on disjoint-bit OR (side condition proved).', 'DESIGN.md §6 C16')
